@@ -197,7 +197,8 @@ def mc_animator(ctx):
         run_tlc(ctx, "MC_Animator", "MC_Animator_quick.cfg", workers=8, subst={"K": k, "Depth": depth}, timeout=3000)
     run_tlc(ctx, "MC_Animator", "MC_Animator_asfound_C04.cfg", workers=4, expect_violation="PauseRules")
     run_tlc(ctx, "MC_Animator", "MC_Animator_asfound_C04nj.cfg", workers=4, expect_violation="NoJump")
-    ctx.extra["model_properties"] = ["NoJump", "PauseRules", "Consistent", "EndedStable", "EndedIff", "TerminalWhenEnded", "NeverEndedIfInfinite", "KeepsOthers"]
+    run_tlc(ctx, "MC_Animator", "MC_Animator_asfound_shape.cfg", workers=4, expect_violation="PauseShape")
+    ctx.extra["model_properties"] = ["NoJump", "PauseRules", "Consistent", "EndedStable", "EndedIff", "TerminalWhenEnded", "NeverEndedIfInfinite", "KeepsOthers", "PauseShape", "FrameRateFree"]
 
 
 def animator_legA(ctx):
